@@ -174,8 +174,17 @@ def r18_4(ctx, fx):
     ctx.ob("R18.4", "from_bytes/parsed-multihash-is-validated-by-from_multihash", ok, site=fn.site(fn.entry), cfg=fx.cfg)
     fs = ctx.fn(fx, "<peer_id::PeerId as std::str::FromStr>::from_str", "R18.4")
     if fs is not None:
-        ok = bool(fs.calls(r"PeerId::from_bytes$")) and bool(fs.calls(r"bs58::decode"))
+        fb = fs.calls(r"PeerId::from_bytes$")
+        ok = bool(fb) and bool(fs.calls(r"bs58::decode"))
         ctx.ob("R18.4", "from_str/base58-then-from_bytes", ok, site=fs.site(fs.entry), cfg=fx.cfg)
+        # the decoder's output reaches from_bytes whole: same finishing call as the reference (`into_vec`, unbounded), no fixed-size
+        # buffer that silently narrows the accepted set
+        fin = sorted({c.name.rsplit("::", 1)[-1] for c in fs.calls(r"bs58::decode::DecodeBuilder(<.*>)?::\w+$")})
+        m = re.search(r"fn from_str\(s: &str\).*?\n    \}", rsrc or "", re.S)
+        ref_fin = sorted(set(re.findall(r"bs58::decode\(s\)\s*\.(\w+)\(", m.group(0)))) if m else []
+        rooted = bool(fb) and any(any(x.startswith("call:") and "DecodeBuilder" in x for x in guards.rootstrs(fs, a)) for a in fb[0].args)
+        ctx.ob("R18.4", "from_str/same-base58-finisher-as-the-reference", bool(ref_fin) and fin == ref_fin and rooted, site=fs.site(fs.entry), cfg=fx.cfg,
+               detail="litep2p finishes the decode with %s, libp2p-identity %s with %s; from_bytes argument rooted in the decoder output: %s" % (fin, ver, ref_fin, rooted))
 
 
 PARSERS = [
